@@ -284,3 +284,11 @@ Theorem action_choice_spec : forall (vals : seq QArith_base.Q) (legal : seq bool
              QArith_base.Qlt (List.nth j vals (QArith_base.Qmake BinNums.Z0 BinNums.xH)) (List.nth r vals (QArith_base.Qmake BinNums.Z0 BinNums.xH))).
 Proof. exact Qmasked_argmax_spec_lemma. Qed.
 Print Assumptions action_choice_spec.
+
+(* latent, outside the layers the library can build: parameter set changes while another parameter grows —
+   the helper loses the retained entry (expected [[5;0;0];[0;7;0];[0;0;7]]) *)
+Theorem resize_general_layer_refuted :
+  reinit_bandit_grads 0%N true [:: (0%N, 1%N); (1%N, 1%N)] [:: (0%N, 3%N)] 7%N [:: [:: 5; 1]; [:: 1; 9]]%N
+  = [:: [:: 0; 0; 0]; [:: 0; 7; 0]; [:: 0; 0; 0]]%N.
+Proof. exact resize_general_layer_witness. Qed.
+Print Assumptions resize_general_layer_refuted.
